@@ -41,7 +41,8 @@ Record cfg := mkCfg {
   c_watchers : list wcfg;
   c_busy_fd : Z;         (* a listener keeps the loop busy for this long inside the flush-done event (v2), ns; <= 0: not *)
   c_busy_audit : Z;      (* ... inside the audit-skip / audit-pass / audit-fail event *)
-  c_busy_cap : Z         (* the rate limiter's GiveMe takes this long to return *)
+  c_busy_cap : Z;        (* the rate limiter's GiveMe takes this long to return *)
+  c_react_pause : nat    (* this many resume events are answered by a listener that calls Pause() from a goroutine of its own and waits for it *)
 }.
 
 Definition ms : Z := 1000000.
@@ -180,6 +181,7 @@ Record state := mkState {
   target : Z;
   tokens : nat;             (* V2 len(inflight) *)
   leaked : nat;             (* V2: batch goroutines blocked on <-inflight after an audit drained the channel *)
+  reacts_left : nat;        (* resume events still to be answered by a Pause() from a listener's goroutine *)
   batches : list batch;     (* raised and not yet (done and returned) *)
   cy_cur : option nat;      (* V2 cursor as an index into buffer *)
   cy_allow : Z;
@@ -210,7 +212,7 @@ Record state := mkState {
   settable! mkB <b_id; b_w; b_ops; b_raised; b_deadline; b_bumped; b_entered; b_ret_at; b_returned; b_done>.
 #[export] Instance eta_state : Settable _ :=
   settable! mkState <now; phase_; loop; stop_req; stoppers; pause_tok; flush_tok; tk_flush; tk_cap;
-                     tk_audit; tickers_on; counted; waiting; woken; buffer; shut; target; tokens; leaked;
+                     tk_audit; tickers_on; counted; waiting; woken; buffer; shut; target; tokens; leaked; reacts_left;
                      batches; cy_cur; cy_allow; cy_consumed; cy_open; last_flush; attempts;
                      next_call; next_bid; capacity_now; maxcap_now;
                      g_inserted; g_raised; g_started; g_shutdowns; g_discarded; g_failed; g_taken;
@@ -221,7 +223,7 @@ Definition init (c : cfg) : state :=
      pause_tok := false; flush_tok := false;
      tk_flush := mkT 0 false; tk_cap := mkT 0 false; tk_audit := mkT 0 false; tickers_on := false;
      counted := []; waiting := []; woken := []; buffer := []; shut := false; target := 0;
-     tokens := 0; leaked := 0; batches := []; cy_cur := None; cy_allow := 0; cy_consumed := 0; cy_open := [];
+     tokens := 0; leaked := 0; reacts_left := 0; batches := []; cy_cur := None; cy_allow := 0; cy_consumed := 0; cy_open := [];
      last_flush := None; attempts := []; next_call := 0; next_bid := 0;
      capacity_now := 0; maxcap_now := 0;
      g_inserted := []; g_raised := []; g_started := []; g_shutdowns := 0; g_discarded := []; g_failed := []; g_taken := [];
@@ -442,7 +444,8 @@ Definition do_start (c : cfg) (s : state) : option (state * list obs) :=
       Some (s <| phase_ := PStarted |> <| loop := LIdle |> <| tickers_on := true |>
               <| tk_flush := mkT (now s + eff_flush c) false |>
               <| tk_cap := mkT (now s + eff_capint c) false |>
-              <| tk_audit := mkT (now s + eff_audit c) false |>, [OStartRet true])
+              <| tk_audit := mkT (now s + eff_audit c) false |>
+              <| reacts_left := c_react_pause c |>, [OStartRet true])
   | _ => Some (s, [OStartRet false])
   end.
 
@@ -550,8 +553,17 @@ Definition do_loop_resume (s : state) : option (state * list obs) :=
   match loop s with
   | LSleeping t =>
       if t =? now s then
-        Some (s <| loop := LIdle |>
-                <| phase_ := match phase_ s with PPaused => PStarted | p => p end |>, [OEvResume])
+        let ph := match phase_ s with PPaused => PStarted | p => p end in
+        match reacts_left s with
+        | O => Some (s <| loop := LIdle |> <| phase_ := ph |>, [OEvResume])
+        | S n =>
+            (* a listener of the resume event has Pause() called from a goroutine of its own and waits for it:
+               the phase is already back to started, so the call is accepted like any other *)
+            match ph with
+            | PStarted => Some (s <| loop := LIdle |> <| phase_ := PPaused |> <| pause_tok := true |> <| reacts_left := n |>, [OEvResume])
+            | _ => Some (s <| loop := LIdle |> <| phase_ := ph |> <| reacts_left := n |>, [OEvResume])
+            end
+        end
       else None
   | _ => None
   end.
